@@ -1,4 +1,4 @@
-import HsVerif.Proofs.ReplicaView
+import HsVerif.Proofs.ReplicaHighQC
 import HsVerif.Props.C03
 /-! C07 — views and certified state only move forward, and only on evidence.  Property theorems only.
 
@@ -9,13 +9,10 @@ backed by a certificate of view `cert ≥ v` that passed the replica's verifier;
 certificate carries a quorum of distinct genuine signatures (over a block of that view, or over
 timeouts for that view).
 
-NOT proved in Lean (checked by the oracle on every implementation trace instead): that the view of
-the high QC and of the last committed block never decrease.  For the high QC this needs the store
-fact "the QC's block is stored with the QC's view" to be carried to `UpdateHighQC`
-(`verifySyncInfo_bv` provides it; the genesis case additionally needs the store invariant
-"genesis is stored"); for the committed block it is a system-level fact (it needs views to grow
-along parent links of fetched ancestors, i.e. at most f Byzantine replicas), see C01.
-The high TC is never updated by the code (`UpdateHighTC` has no caller), so it is constant. -/
+Also proved (end of file): the view of the high QC never decreases.  NOT proved in Lean (checked by the
+oracle on every implementation trace instead): that the view of the committed block never decreases —
+`commitInner` walks parent links of arbitrary ancestors, whose views are ordered only by a system-level argument.
+-/
 open Std.Do
 set_option linter.unusedVariables false
 namespace HsVerif.Props.C07
@@ -101,5 +98,45 @@ the view increment, its ghost record and `AddEvent(ViewChangeEvent{v+1})` are th
 with no exit between them, and the record exists for every increment (`view_advances_by_one`).
 That the queued event is dispatched exactly once is C14.  On the implementation the oracle
 compares, for every delivered message, the list of ViewChangeEvents handled with the view delta. -/
+
+end HsVerif.Props.C07
+
+namespace HsVerif.Props.C07
+open HsVerif.Model HsVerif.Proofs
+
+/-- **The view of the high QC never decreases.**  From any state in which the genesis block is
+stored (every reachable state: block maps only grow), delivering any event — a message of any
+content from any sender, or a local timeout — leaves the high QC's view at least where it was,
+and genesis stored. -/
+theorem highqc_view_monotone (k : Keys) (c : RCfg) (s : RState) (e : Ev) (hg : Grows G0 s) :
+    s.highQC.view ≤ (step k c s e).1.highQC.view ∧ Grows G0 (step k c s e).1 := by
+  unfold step
+  have h0 : ({ s with out := [], queue := s.queue ++ [e] } : RState).highQC.view = s.highQC.view ∧
+      Grows G0 { s with out := [], queue := s.queue ++ [e] } := ⟨rfl, hg⟩
+  have := run_res_of_triple (runLoop k c 100000) _ _ (runLoop_hv k c 100000 s.highQC.view) _ h0
+  simp only [StateT.run, Id.run] at this ⊢
+  exact this
+
+/-- … and hence along every sequence of events from the initial state. -/
+theorem highqc_view_monotone_run (k : Keys) (c : RCfg) (es : List Ev) (s : RState) (hg : Grows G0 s) :
+    s.highQC.view ≤ (es.foldl (fun s e => (step k c s e).1) s).highQC.view := by
+  induction es generalizing s with
+  | nil => exact Nat.le_refl _
+  | cons e rest ih =>
+    have h1 := highqc_view_monotone k c s e hg
+    exact Nat.le_trans h1.1 (ih _ h1.2)
+
+/-- the initial state stores genesis -/
+theorem initial_stores_genesis : Grows G0 ({} : RState) := by
+  intro h b hx
+  unfold G0 at hx
+  rw [List.lookup_cons] at hx
+  split at hx
+  · rename_i he
+    have : h = genesisHash := by simpa using he
+    subst this
+    cases hx
+    rfl
+  · simp at hx
 
 end HsVerif.Props.C07
